@@ -437,6 +437,18 @@ func equalNums(lhsV, rhsV reflect.Value) bool {
 	lhsIsFloat := lhsKind == reflect.Float32 || lhsKind == reflect.Float64
 	rhsIsFloat := rhsKind == reflect.Float32 || rhsKind == reflect.Float64
 	if !lhsIsFloat && !rhsIsFloat {
+		// an unsigned value above the int64 range equals no signed integer
+		lhsUnsigned, rhsUnsigned := isUnsigned(lhsKind), isUnsigned(rhsKind)
+		switch {
+		case lhsUnsigned && rhsUnsigned:
+			return lhsV.Uint() == rhsV.Uint()
+		case lhsUnsigned:
+			i := toInt64(rhsV)
+			return i >= 0 && uint64(i) == lhsV.Uint()
+		case rhsUnsigned:
+			i := toInt64(lhsV)
+			return i >= 0 && uint64(i) == rhsV.Uint()
+		}
 		return toInt64(lhsV) == toInt64(rhsV)
 	}
 	// when both are same kind, direct comparison is safe
@@ -451,6 +463,15 @@ func equalNums(lhsV, rhsV reflect.Value) bool {
 	// an integer and a float are equal exactly when <= and >= both hold,
 	// and those compare as float64
 	return toFloat64(lhsV) == toFloat64(rhsV)
+}
+
+// isUnsigned reports whether kind is an unsigned integer kind
+func isUnsigned(kind reflect.Kind) bool {
+	switch kind {
+	case reflect.Uint, reflect.Uint8, reflect.Uint16, reflect.Uint32, reflect.Uint64, reflect.Uintptr:
+		return true
+	}
+	return false
 }
 
 // numEqualsNumeral returns true when the string s is a numeral denoting the
